@@ -183,15 +183,24 @@ func init() {
 				}
 				n++
 				need := map[string]bool{"v-else-if": false, "v-else": false}
-				for _, g := range guardsOf(site.Block()) {
-					cnd, flip := stripNot(g.If.Cond)
-					want := g.Branch != flip
+				note := func(cnd ssa.Value, want bool) {
 					if cl := isCallNamed(cnd, "helpers.HasAttr"); cl != nil && !want {
 						if k, ok := constString(cl.Call.Args[1]); ok {
 							if _, has := need[k]; has {
 								need[k] = true
 							}
 						}
+					}
+				}
+				for _, g := range guardsOf(site.Block()) {
+					cnd, flip := stripNot(g.If.Cond)
+					note(cnd, g.Branch != flip)
+				}
+				// ... or the same tests lie on every feasible way to the call (an element with v-pre leaves the
+				// loop round before it gets here)
+				if facts, ok := pathFacts(site.Block()); ok {
+					for _, f := range facts {
+						note(f.Cond, f.Want)
 					}
 				}
 				c.check(need["v-else-if"] && need["v-else"], fmt.Sprintf("evaluate: generic element path#%d", n), p.instrPos(site), "guarded by !HasAttr(v-else-if) && !HasAttr(v-else)", "an element with v-else-if / v-else that is not selected by a chain reaches an unconditional rendering path ("+calleeName(site.Common())+"): the leftover branch is rendered although another branch (or the loop) already was")
